@@ -178,13 +178,34 @@ impl Read for MemSource<'_> {
             self.pos += out.len();
             return Err(io::Error::from(io::ErrorKind::UnexpectedEof));
         }
-        let mut i = 0;
-        while i < out.len() {
-            out[i] = self.data[self.pos];
-            self.pos += 1;
-            i += 1;
+        // 4- and 8-byte reads (every read the library issues except the 20-byte header skip) are
+        // written without a loop, so that a harness-wide unwind bound can be chosen for the
+        // library's own loops alone
+        let p = self.pos;
+        let n = out.len();
+        if n == 4 {
+            out[0] = self.data[p];
+            out[1] = self.data[p + 1];
+            out[2] = self.data[p + 2];
+            out[3] = self.data[p + 3];
+        } else if n == 8 {
+            out[0] = self.data[p];
+            out[1] = self.data[p + 1];
+            out[2] = self.data[p + 2];
+            out[3] = self.data[p + 3];
+            out[4] = self.data[p + 4];
+            out[5] = self.data[p + 5];
+            out[6] = self.data[p + 6];
+            out[7] = self.data[p + 7];
+        } else {
+            let mut i = 0;
+            while i < n {
+                out[i] = self.data[p + i];
+                i += 1;
+            }
         }
-        self.consumed += i;
+        self.pos = p + n;
+        self.consumed += n;
         Ok(())
     }
 }
@@ -583,4 +604,38 @@ pub fn same_image<const N: usize>(a: &MemFile<N>, b: &MemFile<N>) -> bool {
         blk += 1;
     }
     ok
+}
+
+// ---------------------------------------------------------------- allocation model (C07, C17)
+
+/// Model of `Vec::<T>::with_capacity` used through `#[kani::stub]`: panics exactly when std
+/// does (capacity overflow) and returns an empty vector that owns a concrete 16-element buffer
+/// (more than any harness input can fill), so that no symbolic-size allocation reaches CBMC.
+/// One monomorphic instance per element type, which is how a failing check is attributed to
+/// its call site. (No `static mut` bookkeeping in here: reading and writing a static inside the
+/// stub made Kani report spurious pointer failures in the pushes that follow.)
+pub fn with_capacity_model<T>(cap: usize) -> Vec<T> {
+    let sz = core::mem::size_of::<T>();
+    assert!(sz == 0 || cap <= (isize::MAX as usize) / sz, "capacity overflow: Vec::with_capacity from an unchecked count");
+    let mut v = Vec::new();
+    v.reserve_exact(16);
+    v
+}
+
+/// Largest input any C17 harness hands to the reader (bytes).
+pub const C17_MAX_INPUT: usize = 216;
+
+/// As `with_capacity_model`, plus the C17 bound: a single pre-sizing request may not exceed
+/// 64 x (input bytes) + 4096. The input size is taken as the largest one used by the C17
+/// harnesses, so the bound applied here is never stricter than the property's.
+pub fn with_capacity_model_bounded<T>(cap: usize) -> Vec<T> {
+    let sz = core::mem::size_of::<T>();
+    assert!(sz == 0 || cap <= (isize::MAX as usize) / sz, "capacity overflow: Vec::with_capacity from an unchecked count");
+    assert!(
+        cap * sz <= 64 * C17_MAX_INPUT + 4096,
+        "memory requested out of proportion to the input (more than 64 x input bytes + 4096)"
+    );
+    let mut v = Vec::new();
+    v.reserve_exact(16);
+    v
 }
